@@ -230,8 +230,10 @@ func (n *networkService) AllocIP(ctx context.Context, r *rpc.AllocIPRequest) (*r
 		ResourceRequests: resourceRequests,
 	})
 	if err != nil {
+		// hand back what this request took. An address the pod already holds by its stored record (repeated ADD)
+		// was not taken by this request and has to stay with the pod
 		_ = n.eniMgr.Release(ctx, cni, &eni.ReleaseRequest{
-			NetworkResources: resp,
+			NetworkResources: withoutStored(resp, oldRes),
 		})
 		return nil, err
 	}
@@ -959,6 +961,25 @@ func parseNetworkResource(item daemon.ResourceItem) eni.NetworkResource {
 		}
 	}
 	return nil
+}
+
+// withoutStored filters out the resources which are recorded for the pod already
+func withoutStored(resp eni.NetworkResources, old daemon.PodResources) []eni.NetworkResource {
+	var result []eni.NetworkResource
+	for _, res := range resp {
+		stored := false
+		for _, item := range res.ToStore() {
+			for _, o := range old.Resources {
+				if o.Type == item.Type && o.ENIID == item.ENIID && o.IPv4 == item.IPv4 && o.IPv6 == item.IPv6 {
+					stored = true
+				}
+			}
+		}
+		if !stored {
+			result = append(result, res)
+		}
+	}
+	return result
 }
 
 func extractIPs(old daemon.ResourceItem) (ipv4, ipv6 netip.Addr, eniID string) {
